@@ -250,6 +250,7 @@ struct Ctx {
     int step = -1;
     char const* op = "-";
     int stepClass = 0; // 0 valid, 1 F1, 2 F2 (misuse), used for crash attribution
+    std::string running; // the property whose check this run belongs to
     // run statistics
     int stateChanging = 0;
     int boundaryEvents = 0;
@@ -263,7 +264,12 @@ struct Ctx {
                 return;
             }
         }
-        viols.push_back(Violation{prop, std::move(clause), op, step, std::move(detail)});
+        bool const spurious = std::string(prop) == "C05" && clause.rfind("contract:spurious", 0) == 0;
+        viols.push_back(Violation{prop, std::move(clause), op, step, detail});
+        if (spurious && (running == "C01" || running == "C04" || running == "C07" || running == "C09" || running == "C17" || running == "C20")) {
+            // the handler fired on a valid call: the call did not deliver the specified result either
+            violation(running.c_str(), "trapped:valid-call", detail);
+        }
     }
 
     [[nodiscard]] auto has(char const* prop) const -> bool
